@@ -78,18 +78,22 @@ def run(ctx):
                 v = d[3].get("variant")
         ctx.ob("R16.1", "init|%s|IMMEDIATE" % k, v in ("Immediate", "Exclusive"), where=ctx.where(init, i), detail="start-up transaction behaviour: %s" % v)
     ctx.ob("R16.1", "init|has-start-up-transaction", bool(rt or rtb), where=init.span, detail="%d start-up transactions" % len(rt + rtb))
-    # who may execute SQL directly
-    direct = {}
-    for b in prog.bodies.values():
-        for i in BA.of(b).calls(r"rusqlite::Connection::(execute|execute_batch)|rusqlite::.*Connection>?::(execute|execute_batch)"):
-            direct.setdefault(b.key, []).append(i)
-    allowed = {"state::ProcessState::write": "the single writer", "state::ProcessTransaction::new": "BEGIN", "state::ProcessTransaction::finish_": "COMMIT/ROLLBACK",
-               "state::ProcessState::init": "schema + run id inside the start-up transaction", "state::connect": "pragmas"}
+    # who may execute SQL directly: the audited table (BEGIN / COMMIT / schema / pragmas) plus the record writer's
+    # funnel (the private primitive(s) behind ProcessTransaction::write, or that function itself)
+    direct = txn.sql_executors(prog)
+    members, problems = txn.writer_funnel(prog, ctx.cg)
+    funnel = {k: r for k, r in members}
+    bad_members = {k for k, _ in problems}
     for k in sorted(direct):
-        ctx.ob("R16.1", "who-executes-sql|%s" % k, k in allowed, where=ctx.where(prog.bodies[k], direct[k][0]),
-               detail="audited: %s" % allowed[k] if k in allowed else "body executes SQL directly, bypassing ProcessTransaction")
-    callers = [c for c in ctx.cg.callers_of(txn.PS_WRITE) if c != "<indirect>"]
-    ctx.ob("R16.1", "who-calls-ProcessState::write", callers == [txn.WRITE], detail="callers: %s" % callers)
+        if k in txn.AUDITED_EXECUTORS:
+            ok, det = True, "audited: %s" % txn.AUDITED_EXECUTORS[k]
+        elif k in funnel and k not in bad_members:
+            ok, det = True, "audited: the single writer" if k == txn.PS_WRITE else "the record writer (private, behind ProcessTransaction::write)"
+        else:
+            ok, det = False, "body executes SQL directly, bypassing ProcessTransaction"
+        ctx.ob("R16.1", "who-executes-sql|%s" % k, ok, where=ctx.where(prog.bodies[k], direct[k][0]), detail=det)
+    ctx.ob("R16.1", "who-calls-ProcessState::write", not problems,
+           detail="writer funnel: %s" % ["%s (%s)" % m for m in members] if not problems else "; ".join(t for _, t in problems))
 
     # ---- R16.3
     opens = anchors.bodies_calling(prog, r"rusqlite::Connection::open.*")
